@@ -17,6 +17,8 @@ CONSTANTS
   ShardProcs = 0
   ShardFlips = 0
   InPlace = FALSE
+  Big = 0
+  PosWidth = 0
 INVARIANT Honest
 INVARIANT OnlyWhoAnswers
 INVARIANT AllUpIsComplete
